@@ -548,7 +548,9 @@ func startListener(addr string, lg *listenerLog) (net.Listener, error) {
 
 func c16Policy(c *mon.Ctx, ds *dnsScript) {
 	r := c.Rand("policy")
-	ranges := []string{"10.0.0.0/8", "10.1.0.0/16", "10.1.2.0/24", "10.1.2.3/32", "192.168.0.0/16", "127.0.0.0/8", "127.0.0.2/32", "127.0.1.0/24", "0.0.0.0/0", "::/0", "::1/128", "2001:db8::/32", "fe80::/10", "100.64.0.0/10"}
+	ranges := []string{"10.0.0.0/8", "10.1.0.0/16", "10.1.2.0/24", "10.1.2.3/32", "192.168.0.0/16", "127.0.0.0/8", "127.0.0.2/32", "127.0.1.0/24", "0.0.0.0/0", "::/0", "::1/128", "2001:db8::/32", "fe80::/10", "100.64.0.0/10",
+		// the same IPv4 ranges written in IPv4-mapped IPv6 notation: they name the same addresses
+		"::ffff:127.0.0.0/104", "::ffff:10.1.2.0/120", "::ffff:127.0.0.2/128", "::ffff:0.0.0.0/96"}
 	garbage := []string{"not-a-cidr", "10.0.0.0", "10.0.0.0/33", "", "300.1.1.1/8"}
 	nCfg := c.Scale(40, 40000)
 	for k := 0; k < nCfg; k++ {
